@@ -30,21 +30,21 @@ func (u *Upload) Transition(active bool) error { u.reset(); return nil }
 
 // Receive implements serviceinfo.DeviceModule.
 func (u *Upload) Receive(ctx context.Context, messageName string, messageBody io.Reader, respond func(string) io.Writer, yield func()) error {
-	if err := u.receive(messageName, messageBody, respond, yield); err != nil {
+	if err := u.receive(ctx, messageName, messageBody, respond, yield); err != nil {
 		u.reset()
 		return err
 	}
 	return nil
 }
 
-func (u *Upload) receive(messageName string, messageBody io.Reader, respond func(string) io.Writer, yield func()) error {
+func (u *Upload) receive(ctx context.Context, messageName string, messageBody io.Reader, respond func(string) io.Writer, yield func()) error {
 	switch messageName {
 	case "name":
 		var name string
 		if err := cbor.NewDecoder(messageBody).Decode(&name); err != nil {
 			return err
 		}
-		if err := u.upload(name, respond, yield); err != nil {
+		if err := u.upload(ctx, name, respond, yield); err != nil {
 			return fmt.Errorf("error uploading %q: %w", name, err)
 		}
 		return nil
@@ -58,7 +58,7 @@ func (u *Upload) receive(messageName string, messageBody io.Reader, respond func
 	}
 }
 
-func (u *Upload) upload(name string, respond func(string) io.Writer, yield func()) error {
+func (u *Upload) upload(ctx context.Context, name string, respond func(string) io.Writer, yield func()) error {
 	defer u.reset()
 
 	f, err := u.FS.Open(name)
@@ -76,10 +76,10 @@ func (u *Upload) upload(name string, respond func(string) io.Writer, yield func(
 	}
 	yield()
 
-	chunk := make([]byte, 1014)
+	chunk := make([]byte, uploadChunkSize(ctx))
 	hash := sha512.New384()
 	for i := stat.Size(); i > 0; {
-		n, err := f.Read(chunk[:min(1014, i)])
+		n, err := f.Read(chunk[:min(int64(len(chunk)), i)])
 		if err != nil {
 			return err
 		}
@@ -99,6 +99,22 @@ func (u *Upload) upload(name string, respond func(string) io.Writer, yield func(
 		return nil
 	}
 	return cbor.NewEncoder(respond("sha-384")).Encode(hash.Sum(nil))
+}
+
+// uploadChunkSize is the size of a data chunk: 1014 by spec, less when the
+// owner accepts smaller messages. A chunk must fit into a single service info
+// because the owner module receives every service info of a split message on
+// its own and cannot decode a partial byte string.
+func uploadChunkSize(ctx context.Context) int {
+	const maxChunkSize = 1014
+	mtu, ok := ctx.Value(serviceinfo.MTUKey{}).(uint16)
+	if !ok {
+		return maxChunkSize
+	}
+	// 1 byte for the KV array header, 16 for the key "fdo.upload:data", 3 for
+	// the header of the value and 3 for the header of the chunk inside it
+	const overhead = 1 + 16 + 3 + 3
+	return max(1, min(maxChunkSize, int(mtu)-overhead))
 }
 
 func (u *Upload) reset() { u.needSha = false }
